@@ -6,7 +6,7 @@ CONSTANTS
   Base = 65530
   L = 3
   SeqD = {1, 2, 5, 0, 101, 103, 200}
-  ClkA = {1}
+  ClkA = {1000}
   ClkB = {0}
   Sizes = {1200, 26, 28}
   PastSizes = {}
